@@ -11,6 +11,13 @@ def run(tier):
     groundstate.model_layer(run, tier, d)
     streams = [0] if tier == "quick" else [0, 1, 2]
     jobs = [(sg, s, 4 if tier == "quick" else 6, None, 40, "C06") for sg in range(1, 231) for s in streams]
+    # origin moves: every letter of every group occupied once, presented with its origin moved by the special translations by
+    # which alternative origins differ (quick: the body diagonal and one more, thorough: six)
+    from .. import crystals
+    for sg in range(1, 231):
+        letters = sorted(crystals._wyckoff_table(sg))
+        for L in letters:
+            jobs.append((sg, 7, 3 if tier == "quick" else 7, [L], 40, "C06", True))
     recs = symcommon.collect(run, jobs)
     symcommon.judge(run, recs, "C06", d, lambda r, c: (
         "C06 clause=%s sg=%d letters=%s species=%s p_index=%s" % (c, r["sg"], r["gen_letters"], r["gen_species"], r["pres"].get("p_index")),
